@@ -2,20 +2,25 @@ import Pyrealb.Model.LexState
 import Pyrealb.Lemmas.LexState
 /-! # C19 — lexicon management touches only the named lexicon and affects new words
 
-Property theorems. `Model/LexState` mirrors `Lexicon.py` (entries are dict *objects* in a heap, because the
-code stores and later updates the caller's dict) and the lexicon lookup of `Terminal.setLemma`.
-The specification is two independent finite maps `view st : Lang → Lemma → Option (Cat → Option Val)`.
+Property theorems. `Model/LexState` mirrors `Lexicon.py` after fixes 8586a6a and 3c7823e (entries are dict
+*objects* in a heap; a new entry is a fresh object holding a shallow copy of the caller's dict) and the lexicon
+lookup of `Terminal.setLemma`. The specification is two independent finite maps
+`view st : Lang → Lemma → Option (Cat → Option Val)`.
 
-Every clause that speaks about "the state reached by a history" is a predicate with a side condition on the
-history; the property itself is the instance `Always` (no side condition). Where the unchanged code violates
-it there is a `_refuted` theorem (concrete witness) and a `_partial` theorem (`HistFresh`: no dict object
-gets stored under two keys). All theorems are for ALL histories / ALL states (induction, case analysis). -/
+All theorems are for ALL histories / ALL states (induction over the call list, case analysis). The states reached
+by any history from a `Good` state (no dict object stored under two keys — true of the lexicons as loaded from
+JSON) are `Good` (`unshared_invariant`): since 3c7823e no call can create sharing. -/
 namespace Pyrealb.C19
 open Pyrealb.LexState
 
-abbrev Side := State → List Op → Prop
-/-- no side condition: the property as written -/
-def Always : Side := fun _ _ => True
+/-! ### no sharing, ever -/
+
+/-- **C19.0** no history makes two (language, lemma) keys hold the same dict object, whatever dicts (the caller's
+    own, the same one twice, or objects obtained from `getLemma`) are passed. -/
+def unshared_invariant : Prop :=
+  ∀ (st₀ : State) (ops : List Op), Good st₀ → Good (run st₀ ops)
+
+theorem unshared_invariant_holds : unshared_invariant := fun st₀ ops hg => good_run st₀ hg ops
 
 /-! ### add -/
 
@@ -23,44 +28,32 @@ def Always : Side := fun _ _ => True
     `lang ?? current` becomes `infos` (new lemma) or the old entry with every category of `infos` replaced
     (existing lemma); every other (language, lemma) keeps its entry. The single-dict form is the same call
     on its first item. -/
-def AddRefines (S : Side) : Prop :=
+def add_refines : Prop :=
   ∀ (st₀ : State) (ops : List Op) (lemma : Lemma) (a : DictArg) (lang : Option LangArg) (l : Lang),
-    Good st₀ → S st₀ ops → resolve (run st₀ ops).cur lang = .ok l →
+    Good st₀ → resolve (run st₀ ops).cur lang = .ok l →
     view (next (run st₀ ops) (.lex (.add lemma a) lang)) =
         aset (view (run st₀ ops)) l lemma
           (some (storeOrMerge (view (run st₀ ops) l lemma) (argContent (run st₀ ops) a)))
     ∧ ∀ rest, step (run st₀ ops) (.lex (.addSingle ((lemma, a) :: rest)) lang) =
         step (run st₀ ops) (.lex (.add lemma a) lang)
 
-def add_refines : Prop := AddRefines Always
-
-theorem add_refines_partial : AddRefines HistFresh := by
-  intro st₀ ops lemma a lang l hg hf hr
-  have hG := good_run st₀ hg ops hf
+theorem add_refines_holds : add_refines := by
+  intro st₀ ops lemma a lang l hg hr
+  have hG := good_run st₀ hg ops
   refine ⟨?_, fun rest => ?_⟩
   · rw [next_lex_ok _ _ _ l hr, execNext_add]
     exact view_addCore _ hG l lemma a
   · simp [step, hr, exec]
 
-/-! the witness used by every aliasing refutation: ONE dict stored in both lexicons, then an `add` to one of them -/
-def emptyState : State := ⟨.en, [], [], fun _ => none, 0, 1⟩
+/-! concrete states used by the tests and refutations below -/
+def emptyState : State := ⟨.en, [], [], fun _ => none, 0, 0, 1⟩
 def wLemma : Lemma := ['w']
-def dN : DictArg := ⟨1, [(['N'], ['n', '1'])]⟩
-def dA : DictArg := ⟨2, [(['A'], ['a', '1'])]⟩
-/-- `d={"N":"n1"}; addToLexicon("w",d,"en"); addToLexicon("w",d,"fr")` -/
-def sharing : List Op := [.lex (.add wLemma dN) (some .en), .lex (.add wLemma dN) (some .fr)]
+def dN : DictArg := .lit [(['N'], ['n', '1'])]
+def dA : DictArg := .lit [(['A'], ['a', '1'])]
 
 theorem good_empty : Good emptyState :=
-  ⟨fun l lemma r h => by cases l <;> simp [emptyState, State.lexOf, dget] at h,
-   fun l₁ m₁ l₂ m₂ r h => by cases l₁ <;> simp [emptyState, State.lexOf, dget] at h⟩
-
-/-- after `sharing`, `addToLexicon("w",{"A":"a1"},"en")` also gives the FRENCH entry of "w" a category "A" -/
-theorem add_refines_refuted : ¬ add_refines := by
-  intro h
-  have h1 := (h emptyState sharing wLemma dA (some .en) .en good_empty trivial rfl).1
-  have h2 := congrArg (fun (A : Abs) => (A .fr wLemma).map (fun m => m ['A'])) h1
-  revert h2
-  decide
+  ⟨fun l₁ m₁ l₂ m₂ r h => by cases l₁ <;> simp [emptyState, State.lexOf, dget] at h,
+   fun l lemma r h => by cases l <;> simp [emptyState, State.lexOf, dget] at h⟩
 
 /-! ### update, remove -/
 
@@ -75,7 +68,7 @@ def update_refines : Prop :=
 theorem update_refines_holds : update_refines := by
   intro st₀ ops nl lang l hg hr
   rw [next_lex_ok _ _ _ l hr, execNext_update]
-  exact view_foldStore _ (wf_run st₀ hg.1 ops) l nl
+  exact view_foldStore _ (good_run st₀ hg ops) l nl
 
 /-- **C19.c** `addToLexicon(lemma, None, lang)`: the lemma is absent afterwards from the lexicon of
     `lang ?? current`, nothing else changes, `None` is returned (in every state). -/
@@ -94,7 +87,7 @@ theorem remove_refines_holds : remove_refines := by
 
 /-- **C19.d** `getLemma` returns what is stored (the stored object itself, `None` when absent) and changes
     nothing; right after an `add` (and as the value of that `add`) it returns the stored/merged entry, which
-    for a new lemma is the caller's own dict. -/
+    for a new lemma is a NEW object (not the caller's dict) with the same content. -/
 def get_after_add : Prop :=
   (∀ (st : State) (lemma : Lemma) (lang : Option LangArg) (l : Lang), resolve st.cur lang = .ok l →
     ret st (.lex (.getLemma lemma) lang) =
@@ -105,7 +98,7 @@ def get_after_add : Prop :=
     ∃ r e, ret (run st₀ ops) (.lex (.add lemma a) lang) = .ok (.dict r e) ∧
       ret (next (run st₀ ops) (.lex (.add lemma a) lang)) (.lex (.getLemma lemma) lang) = .ok (.dict r e) ∧
       entryView e = storeOrMerge (view (run st₀ ops) l lemma) (argContent (run st₀ ops) a) ∧
-      (view (run st₀ ops) l lemma = none → r = a.ref))
+      (view (run st₀ ops) l lemma = none → r = (run st₀ ops).fresh ∧ e = argContent (run st₀ ops) a))
 
 theorem getLemmaRet_eq (st : State) (l : Lang) (lemma : Lemma) :
     getLemmaRet st l lemma = (match entryAt st l lemma with | some (r, e) => .dict r e | none => .none) := by
@@ -117,7 +110,7 @@ theorem get_after_add_holds : get_after_add := by
   · simp only [ret, step, hr, exec, getLemmaRet_eq]
   · rw [next_lex_ok _ _ _ l hr]; rfl
   · intro st₀ ops lemma a lang l hg hr
-    have hwf := wf_run st₀ hg.1 ops
+    have hwf := (good_run st₀ hg ops).2
     generalize run st₀ ops = st at hr hwf ⊢
     have hcur : (next st (.lex (.add lemma a) lang)).cur = st.cur := by
       rw [next_lex_ok _ _ _ l hr]; exact cur_execNext st l _
@@ -130,7 +123,7 @@ theorem get_after_add_holds : get_after_add := by
     · simp only [ret, step, hr, exec, addCore, stored]
       cases hd : dget lemma (st.lexOf l) with
       | none => rfl
-      | some r => simp [argContent, content, touch_alloc st.heap a r (hwf l lemma r hd)]
+      | some r => rfl
     · unfold stored view entryAt
       cases hd : dget lemma (st.lexOf l) with
       | none => simp [storeOrMerge]
@@ -148,16 +141,14 @@ def touches (st : State) : Op → Lang → Lemma → Prop
   | .lex o lang, l', lemma' => resolve st.cur lang = .ok l' ∧ lemma' ∈ o.lemmas
 
 /-- **C19.e** a call leaves every entry it is not about unchanged: same object, same content. -/
-def OtherEntriesUntouched (S : Side) : Prop :=
+def other_entries_untouched : Prop :=
   ∀ (st₀ : State) (ops : List Op) (op : Op) (l' : Lang) (lemma' : Lemma),
-    Good st₀ → S st₀ ops → ¬ touches (run st₀ ops) op l' lemma' →
+    Good st₀ → ¬ touches (run st₀ ops) op l' lemma' →
     entryAt (next (run st₀ ops) op) l' lemma' = entryAt (run st₀ ops) l' lemma'
 
-def other_entries_untouched : Prop := OtherEntriesUntouched Always
-
-theorem other_entries_untouched_partial : OtherEntriesUntouched HistFresh := by
-  intro st₀ ops op l' lemma' hg hf hnt
-  have hG := good_run st₀ hg ops hf
+theorem other_entries_untouched_holds : other_entries_untouched := by
+  intro st₀ ops op l' lemma' hg hnt
+  have hG := good_run st₀ hg ops
   generalize run st₀ ops = st at hnt hG ⊢
   cases op with
   | ctl c =>
@@ -174,36 +165,21 @@ theorem other_entries_untouched_partial : OtherEntriesUntouched HistFresh := by
       obtain ⟨rfl, hm⟩ := hc
       exact ⟨hr, hm⟩
 
-theorem other_entries_untouched_refuted : ¬ other_entries_untouched := by
-  intro h
-  have h1 := h emptyState sharing (.lex (.add wLemma dA) (some .en)) .fr wLemma good_empty trivial
-    (by simp [touches, resolve])
-  revert h1
-  decide
-
 /-- **C19.f** a call with `lang=ℓ` (or, without `lang`, under current language ℓ) never changes the other
     lexicon: neither the dict itself (keys, order, which objects) nor the content of any of its entries. -/
-def OtherLexiconUntouched (S : Side) : Prop :=
+def other_lexicon_untouched : Prop :=
   ∀ (st₀ : State) (ops : List Op) (o : LOp) (lang : Option LangArg) (l l' : Lang),
-    Good st₀ → S st₀ ops → resolve (run st₀ ops).cur lang = .ok l → l' ≠ l →
+    Good st₀ → resolve (run st₀ ops).cur lang = .ok l → l' ≠ l →
     (next (run st₀ ops) (.lex o lang)).lexOf l' = (run st₀ ops).lexOf l' ∧
     ∀ lemma', entryAt (next (run st₀ ops) (.lex o lang)) l' lemma' = entryAt (run st₀ ops) l' lemma'
 
-def other_lexicon_untouched : Prop := OtherLexiconUntouched Always
-
-theorem other_lexicon_untouched_partial : OtherLexiconUntouched HistFresh := by
-  intro st₀ ops o lang l l' hg hf hr hne
-  have hG := good_run st₀ hg ops hf
+theorem other_lexicon_untouched_holds : other_lexicon_untouched := by
+  intro st₀ ops o lang l l' hg hr hne
+  have hG := good_run st₀ hg ops
   generalize run st₀ ops = st at hr hG ⊢
   rw [next_lex_ok st o lang l hr]
   exact ⟨lexOf_execNext_other st l o l' hne,
     fun lemma' => lookup_execNext_other st hG l o l' lemma' (fun hc => hne hc.1)⟩
-
-theorem other_lexicon_untouched_refuted : ¬ other_lexicon_untouched := by
-  intro h
-  have h1 := (h emptyState sharing (.add wLemma dA) (some .en) .en .fr good_empty trivial rfl (by decide)).2 wLemma
-  revert h1
-  decide
 
 /-- an unknown language raises `KeyError` before anything happens; `load*`/`getLanguage` touch no lexicon -/
 def bad_lang_and_load_frame : Prop :=
@@ -235,7 +211,7 @@ def rules_never_change : Prop :=
 
 theorem rules_next (st : State) (op : Op) (l : Lang) : (next st op).rulesOf l = st.rulesOf l := by
   cases op with
-  | ctl c => exact (next_ctl st c).2.2 l
+  | ctl c => exact (next_ctl st c).2.2.1 l
   | lex o lang =>
     cases hr : resolve st.cur lang with
     | error c => rw [next_lex_err st o lang c hr]
@@ -314,11 +290,9 @@ def absState (st : State) : SState := ⟨st.cur, view st⟩
 
 /-- **C19.i** refinement for whole histories: running any history of calls and then reading the two lexicons
     gives what the specification computes on two independent maps. -/
-def HistoryRefines (S : Side) : Prop :=
-  ∀ (st₀ : State) (ops : List Op), Good st₀ → S st₀ ops →
+def history_refines : Prop :=
+  ∀ (st₀ : State) (ops : List Op), Good st₀ →
     absState (run st₀ ops) = (absOps st₀ ops).foldl SState.step (absState st₀)
-
-def history_refines : Prop := HistoryRefines Always
 
 theorem specTarget_ok (cur : Lang) (lang : Option LangArg) (l : Lang) (h : resolve cur lang = .ok l) :
     specTarget cur lang = some l := by
@@ -381,40 +355,34 @@ theorem abs_next (st : State) (hg : Good st) (op : Op) : absState (next st op) =
         rw [execNext_remove, view_removeAt]
       | update nl =>
         simp only [absState, absOp, SState.step, ht, hcur, Option.getD_some]
-        rw [execNext_update, view_foldStore st hg.1]
+        rw [execNext_update, view_foldStore st hg]
       | getLemma lemma => simp [absOp, SState.step]
       | getLexicon => simp [absOp, SState.step]
       | getRules => simp [absOp, SState.step]
 
-theorem history_refines_partial : HistoryRefines HistFresh := by
-  intro st₀ ops hg hf
+theorem history_refines_holds : history_refines := by
+  intro st₀ ops hg
   induction ops generalizing st₀ with
   | nil => rfl
   | cons op r ih =>
-    have := ih (next st₀ op) (good_next st₀ hg op hf.1) hf.2
+    have := ih (next st₀ op) (good_next st₀ hg op)
     simp only [run, List.foldl_cons, absOps] at this ⊢
     rw [this, abs_next st₀ hg]
 
-theorem history_refines_refuted : ¬ history_refines := by
-  intro h
-  have h1 := h emptyState (sharing ++ [.lex (.add wLemma dA) (some .en)]) good_empty trivial
-  have h2 := congrArg (fun (s : SState) => (s.maps .fr wLemma).map (fun m => m ['A'])) h1
-  revert h2
-  decide
-
 /-! ### link to terminal construction -/
 
-abbrev TermSide := State → Lang → Lemma → Prop
-def AlwaysT : TermSide := fun _ _ _ => True
-/-- the lexicon that was changed is the current one, and the lemma has no `œ`/`æ` ligature -/
-def CurrentAndPlain : TermSide := fun st l lemma => l = st.cur ∧ normLemma lemma = lemma
+abbrev TermSide := Lemma → Prop
+def AlwaysT : TermSide := fun _ => True
+/-- the lemma has no `œ`/`æ` ligature (`Terminal.setLemma` rewrites them to `oe`/`ae` before the lookup) -/
+def Plain : TermSide := fun lemma => normLemma lemma = lemma
 
 /-- **C19.j** after `addToLexicon(lemma, infos, lang)` a newly created terminal of that lemma in the language
-    whose lexicon was changed (`termLang = lang ?? current`), of a category that `infos` gives, reads the NEW
-    value of that category (and the rules of its own language): it inflects according to the new information. -/
+    whose lexicon was changed (`lang=` of the terminal given, or omitted under that current language), of a
+    category that `infos` gives, reads the NEW value of that category (and the rules of its own language): it
+    inflects according to the new information. Whatever the current language is. -/
 def NewTerminalUsesNewEntry (S : TermSide) : Prop :=
   ∀ (st : State) (lemma : Lemma) (a : DictArg) (lang tl : Option LangArg) (l : Lang) (cat : Cat) (v : Val),
-    WF st → S st l lemma → resolve st.cur lang = .ok l → termLang st.cur tl = l →
+    Bounded st → S lemma → resolve st.cur lang = .ok l → termLang st.cur tl = l →
     (dkeys (argContent st a)).Nodup → dget cat (argContent st a) = some v →
     lookupForTerminal (next st (.lex (.add lemma a) lang)) tl lemma cat = .found v l (st.rulesOf l)
 
@@ -422,24 +390,23 @@ def new_terminal_uses_new_entry : Prop := NewTerminalUsesNewEntry AlwaysT
 
 theorem lookupForTerminal_eq (st : State) (tl : Option LangArg) (lemma : Lemma) (cat : Cat) :
     lookupForTerminal st tl lemma cat =
-      (match entryAt st st.cur (normLemma lemma) with
+      (match entryAt st (termLang st.cur tl) (normLemma lemma) with
        | none => .unknown (termLang st.cur tl)
        | some (_, e) =>
          match dget cat e with
          | none => .otherPOS (termLang st.cur tl) ((dkeys e).filter (fun k => !decide (k = ldv)))
          | some v => .found v (termLang st.cur tl) (st.rulesOf (termLang st.cur tl))) := by
   unfold lookupForTerminal entryAt
-  cases dget (normLemma lemma) (st.lexOf st.cur) <;> rfl
+  dsimp only
+  cases dget (normLemma lemma) (st.lexOf (termLang st.cur tl)) <;> rfl
 
-theorem new_terminal_uses_new_entry_partial : NewTerminalUsesNewEntry CurrentAndPlain := by
-  intro st lemma a lang tl l cat v hwf hs hr ht hnd hv
-  obtain ⟨hl, hplain⟩ := hs
-  subst hl
+theorem new_terminal_uses_new_entry_partial : NewTerminalUsesNewEntry Plain := by
+  intro st lemma a lang tl l cat v hwf hplain hr ht hnd hv
   rw [lookupForTerminal_eq, next_lex_ok _ _ _ _ hr, cur_execNext, hplain, rules_execNext, ht, execNext_add,
     lookup_addCore_same st hwf]
-  have hcat : dget cat (stored st st.cur lemma a).2 = some v := by
+  have hcat : dget cat (stored st l lemma a).2 = some v := by
     unfold stored
-    cases hd : dget lemma (st.lexOf st.cur) with
+    cases hd : dget lemma (st.lexOf l) with
     | none => exact hv
     | some r =>
       have := congrFun (entryView_dupdate (content st.heap r) (argContent st a)) cat
@@ -447,49 +414,63 @@ theorem new_terminal_uses_new_entry_partial : NewTerminalUsesNewEntry CurrentAnd
       simp only [this, mergeMap_nodup _ _ _ hnd, hv]
   simp only [hcat]
 
-/-- `addToLexicon("w",{"N":"n1"},"fr")` under `loadEn()`, then `N("w","fr")`: "not in lexicon" -/
+/-- `addToLexicon("œ",{"N":"n1"})`, then `N("œ")`: looked up as "oe" — "not in lexicon" -/
 theorem new_terminal_uses_new_entry_refuted : ¬ new_terminal_uses_new_entry := by
   intro h
-  have h1 := h emptyState wLemma dN (some .fr) (some .fr) .fr ['N'] ['n', '1'] good_empty.1 trivial rfl rfl
+  have h1 := h emptyState ['œ'] dN none none .en ['N'] ['n', '1'] good_empty.2 trivial rfl rfl
     (by decide) (by decide)
   revert h1
   decide
 
 /-- **C19.k** after `addToLexicon(lemma, None, lang)` a newly created terminal of that lemma in that language
-    is reported unknown ("not in lexicon", realized `[[lemma]]`). -/
+    is reported unknown ("not in lexicon", realized `[[lemma]]`). Whatever the current language is. -/
 def RemovedIsUnknown (S : TermSide) : Prop :=
   ∀ (st : State) (lemma : Lemma) (lang tl : Option LangArg) (l : Lang) (cat : Cat),
-    S st l lemma → resolve st.cur lang = .ok l → termLang st.cur tl = l →
+    S lemma → resolve st.cur lang = .ok l → termLang st.cur tl = l →
     lookupForTerminal (next st (.lex (.remove lemma) lang)) tl lemma cat = .unknown l
 
 def removed_is_unknown : Prop := RemovedIsUnknown AlwaysT
 
-theorem removed_is_unknown_partial : RemovedIsUnknown CurrentAndPlain := by
-  intro st lemma lang tl l cat hs hr ht
-  obtain ⟨hl, hplain⟩ := hs
-  subst hl
+theorem removed_is_unknown_partial : RemovedIsUnknown Plain := by
+  intro st lemma lang tl l cat hplain hr ht
   rw [lookupForTerminal_eq, next_lex_ok _ _ _ _ hr, cur_execNext, hplain, ht, execNext_remove, lookup_removeAt]
   simp
 
-/-- "w" in both lexicons, `addToLexicon("w",None,"fr")` under `loadEn()`, then `N("w","fr")`: the ENGLISH entry is found -/
+/-- "oe" in the lexicon, `addToLexicon("œ",None)`, then `N("œ")`: the entry of "oe" is found -/
 theorem removed_is_unknown_refuted : ¬ removed_is_unknown := by
   intro h
-  have h1 := h (run emptyState sharing) wLemma (some .fr) (some .fr) .fr ['N'] trivial rfl rfl
+  have h1 := h (next emptyState (.lex (.add ['o', 'e'] dN) none)) ['œ'] none none .en ['N'] trivial rfl rfl
   revert h1
   decide
 
+/-- the terminal's own language decides, never the current one (the point of fix 8586a6a): two states that differ
+    only in the current language give the same lookup to a terminal whose language is named -/
+def terminal_lookup_ignores_current : Prop :=
+  ∀ (st : State) (c : Lang) (la : LangArg) (lemma : Lemma) (cat : Cat),
+    lookupForTerminal (st.setCur c) (some la) lemma cat = lookupForTerminal st (some la) lemma cat
+
+theorem terminal_lookup_ignores_current_holds : terminal_lookup_ignores_current := by
+  intro st c la lemma cat
+  cases la <;> simp [lookupForTerminal, termLang]
+
 /-! ### non-vacuity and tests (concrete instances; these are tests, not property theorems) -/
 
--- a history satisfying the side condition: two different dicts, one per lexicon, then a merge and a removal
+-- a history: one dict per lexicon, then a merge and a removal
 def freshHistory : List Op :=
   [.lex (.add wLemma dN) (some .en), .ctl .loadFr, .lex (.add wLemma dA) none,
-   .lex (.add wLemma ⟨3, [(['V'], ['v', '1'])]⟩) (some .en), .lex (.remove wLemma) (some .fr)]
+   .lex (.add wLemma (.lit [(['V'], ['v', '1'])])) (some .en), .lex (.remove wLemma) (some .fr)]
 
-example : HistFresh emptyState freshHistory := by
-  simp [freshHistory, HistFresh, OpFresh, LOpFresh, NotStored, resolve, next, step, exec, addCore, storeArg,
-    emptyState, State.lexOf, State.setLex, State.setHeap, State.setCur, dget, dset, wLemma, dN, dA]
-  refine ⟨fun l lemma => ?_, fun l lemma => ?_⟩ <;> cases l <;> simp [dget]
+/-- the former aliasing witness: the stored object of the English "w" passed again as the French "w", then an
+    `add` to the English one — the French entry is a copy and keeps its content (3c7823e) -/
+def formerlySharing : List Op :=
+  [.lex (.add wLemma dN) (some .en), .lex (.add wLemma (.obj 0)) (some .fr), .lex (.add wLemma dA) (some .en)]
 
+example : (view (run emptyState formerlySharing) .fr wLemma).map (fun m => (m ['N'], m ['A']))
+    = some (some ['n', '1'], none) := by decide
+example : (view (run emptyState formerlySharing) .en wLemma).map (fun m => (m ['N'], m ['A']))
+    = some (some ['n', '1'], some ['a', '1']) := by decide
+example : (entryAt (run emptyState formerlySharing) .en wLemma).map Prod.fst = some 0 ∧
+    (entryAt (run emptyState formerlySharing) .fr wLemma).map Prod.fst = some 1 := by decide
 example : (view (run emptyState freshHistory) .en wLemma).map (fun m => (m ['N'], m ['V'], m ['A']))
     = some (some ['n', '1'], some ['v', '1'], none) := by decide
 example : (view (run emptyState freshHistory) .fr wLemma).isNone = true := by decide
@@ -497,8 +478,9 @@ example : (run emptyState freshHistory).cur = .fr := by decide
 -- terminal under the current language sees the new entry; after removal it is unknown
 example : lookupForTerminal (next emptyState (.lex (.add wLemma dN) none)) none wLemma ['N'] = .found ['n', '1'] .en 0 := by decide
 example : lookupForTerminal (next emptyState (.lex (.add wLemma dN) none)) none wLemma ['V'] = .otherPOS .en [['N']] := by decide
--- the ligature hypothesis of `CurrentAndPlain` is needed: `addToLexicon("œ",…)` then `N("œ")` looks up "oe"
-example : lookupForTerminal (next emptyState (.lex (.add ['œ'] dN) none)) none ['œ'] ['N'] = .unknown .en := by decide
+-- a French terminal created under `loadEn()` sees the French lexicon (fix 8586a6a)
+example : lookupForTerminal (next emptyState (.lex (.add wLemma dN) (some .fr))) (some .fr) wLemma ['N'] = .found ['n', '1'] .fr 1 := by decide
+example : lookupForTerminal (next emptyState (.lex (.add wLemma dN) (some .fr))) none wLemma ['N'] = .unknown .en := by decide
 -- single-dict form with an empty dict: IndexError, after the language was resolved
 example : step emptyState (.lex (.addSingle []) none) = .error .indexError := by rfl
 example : step emptyState (.lex (.addSingle []) (some .bad)) = .error .keyError := by rfl
